@@ -140,7 +140,9 @@ def run(prop: str, tier: str, seed: int) -> int:
                 # (b) every edge again with a plugin, a subscriber and an emit listener that always raise
                 units.append({"specs": g, "engine": eng, "props": [prop], "seed": seed, "gvals": gvals,
                               "with_can": False, "mc": True, "tlc_workers": 2, "walks": (0, 0),
-                              "max_states": 40 if q else 10 ** 8, "observer_faults": True})
+                              "max_states": 40 if q else 10 ** 8, "observer_faults": True,
+                              # ... including the steps in which a user action raises (on_action_error itself raises then)
+                              "with_faults": True})
     for eng in engines_for(prop):
         for i, sh in enumerate(shard(fam["walk"], 2 if q else 6)):
             units.append({"specs": sh, "engine": eng, "props": [prop], "seed": seed + 17 * i, "gvals": gvals,
